@@ -144,6 +144,184 @@ class RenameLocals(ast.NodeTransformer):
         return node
 
 
+def _is_docstring(st):
+    return isinstance(st, ast.Expr) and isinstance(st.value, ast.Constant) and isinstance(st.value.value, str)
+
+
+def _split_doc(body):
+    return (body[:1], body[1:]) if body and _is_docstring(body[0]) else ([], body)
+
+
+class Annotate(ast.NodeTransformer):
+    """type annotations on every parameter and return, and the first plain local assignment of each
+    function turned into an annotated assignment (x: "T" = e)"""
+    def visit_FunctionDef(self, node):
+        self.generic_visit(node)
+        for a in node.args.args[1:] if node.args.args and node.args.args[0].arg in ("self", "cls") else node.args.args:
+            if a.annotation is None:
+                a.annotation = ast.Constant("object")
+        if node.returns is None and node.name != "__init__":
+            node.returns = ast.Constant("object")
+        for i, st in enumerate(node.body):
+            if isinstance(st, ast.Assign) and len(st.targets) == 1 and isinstance(st.targets[0], ast.Name):
+                node.body[i] = ast.AnnAssign(target=st.targets[0], annotation=ast.Constant("object"), value=st.value, simple=1)
+                break
+        return node
+
+
+class Asserts(ast.NodeTransformer):
+    """an `assert <first parameter> is not None` at the start of every function that has one"""
+    def visit_FunctionDef(self, node):
+        self.generic_visit(node)
+        ps = [a.arg for a in node.args.args if a.arg not in ("self", "cls")]
+        if ps and not node.decorator_list or ps:
+            doc, rest = _split_doc(node.body)
+            chk = ast.Assert(test=ast.Compare(left=ast.Name(ps[0], ast.Load()), ops=[ast.IsNot()], comparators=[ast.Constant(None)]), msg=ast.Constant("missing argument"))
+            node.body = doc + [chk] + rest
+        return node
+
+
+class Logging(ast.NodeTransformer):
+    """import logging ; a module logger ; a debug call at the start of every function"""
+    def visit_Module(self, node):
+        self.generic_visit(node)
+        doc, rest = _split_doc(node.body)
+        k = 0
+        while k < len(rest) and isinstance(rest[k], ast.ImportFrom) and rest[k].module == "__future__":
+            k += 1
+        extra = ast.parse("import logging\n_fdlog = logging.getLogger(__name__)\n").body
+        node.body = doc + rest[:k] + extra + rest[k:]
+        return node
+
+    def visit_FunctionDef(self, node):
+        self.generic_visit(node)
+        doc, rest = _split_doc(node.body)
+        call = ast.parse("_fdlog.debug('enter %%s', %r)" % node.name).body[0]
+        node.body = doc + [call] + rest
+        return node
+
+
+class ErrState(ast.NodeTransformer):
+    """the body of every method that returns a value wrapped in `with np.errstate(invalid='warn'):` (numpy's
+    default for `invalid`: no change of values nor of warnings)"""
+    def visit_Module(self, node):
+        self.has_np = any(isinstance(n, ast.Import) and any(a.name == "numpy" and a.asname == "np" for a in n.names) for n in node.body)
+        self.generic_visit(node)
+        return node
+
+    def visit_FunctionDef(self, node):
+        self.generic_visit(node)
+        if not getattr(self, "has_np", False) or node.name.startswith("__"):
+            return node
+        if any(isinstance(n, (ast.Yield, ast.YieldFrom)) for n in ast.walk(node)):
+            return node
+        doc, rest = _split_doc(node.body)
+        if not rest:
+            return node
+        w = ast.parse("with np.errstate(invalid='warn'):\n    pass\n").body[0]
+        w.body = rest
+        node.body = doc + [w]
+        return node
+
+
+class TryReraise(ast.NodeTransformer):
+    """the body of every function wrapped in try: ... except Exception: raise"""
+    def visit_FunctionDef(self, node):
+        self.generic_visit(node)
+        doc, rest = _split_doc(node.body)
+        if not rest or node.name.startswith("__") and node.name != "__init__":
+            return node
+        t = ast.parse("try:\n    pass\nexcept Exception:\n    raise\n").body[0]
+        t.body = rest
+        node.body = doc + [t]
+        return node
+
+
+class SortMethods(ast.NodeTransformer):
+    """methods of every class reordered (reverse source order; constructors and class-level statements stay
+    in place; a name defined twice keeps its relative order)"""
+    def visit_ClassDef(self, node):
+        self.generic_visit(node)
+        names = [st.name for st in node.body if isinstance(st, ast.FunctionDef)]
+        if len(set(names)) != len(names):
+            return node
+        # class-level statements that refer to a method by name (aliases) pin the order: keep such classes
+        meth = set(names)
+        for st in node.body:
+            if not isinstance(st, ast.FunctionDef):
+                if any(isinstance(n, ast.Name) and n.id in meth for n in ast.walk(st)):
+                    return node
+        idx = [i for i, st in enumerate(node.body) if isinstance(st, ast.FunctionDef) and st.name != "__init__"]
+        funcs = [node.body[i] for i in idx][::-1]
+        for i, f in zip(idx, funcs):
+            node.body[i] = f
+        return node
+
+
+class NumpyForms(ast.NodeTransformer):
+    """np.sqrt(x) -> x**0.5 ; x**2 -> np.square(x) ; np.abs / abs -> np.absolute   (same values)"""
+    def visit_Module(self, node):
+        self.has_np = any(isinstance(n, ast.Import) and any(a.name == "numpy" and a.asname == "np" for a in n.names) for n in node.body)
+        self.generic_visit(node)
+        return node
+
+    def visit_Call(self, node):
+        self.generic_visit(node)
+        f = node.func
+        if isinstance(f, ast.Attribute) and isinstance(f.value, ast.Name) and f.value.id == "np" and len(node.args) == 1 and not node.keywords:
+            if f.attr == "sqrt":
+                return ast.BinOp(left=node.args[0], op=ast.Pow(), right=ast.Constant(0.5))
+            if f.attr == "abs":
+                f.attr = "absolute"
+        return node
+
+    def visit_BinOp(self, node):
+        self.generic_visit(node)
+        if getattr(self, "has_np", False) and isinstance(node.op, ast.Pow) and isinstance(node.right, ast.Constant) and node.right.value == 2 and not isinstance(node.right.value, bool):
+            return ast.Call(func=ast.Attribute(ast.Name("np", ast.Load()), "square", ast.Load()), args=[node.left], keywords=[])
+        return node
+
+
+class CompToLoop(ast.NodeTransformer):
+    """x = [E for v in IT]  ->  x = [] ; for v in IT: x.append(E)      (single generator, no condition,
+    plain name target, E does not mention x)"""
+    def visit_Assign(self, node):
+        v = node.value
+        if (len(node.targets) == 1 and isinstance(node.targets[0], ast.Name) and isinstance(v, ast.ListComp) and len(v.generators) == 1
+                and not v.generators[0].ifs and not v.generators[0].is_async):
+            x = node.targets[0].id
+            if any(isinstance(n, ast.Name) and n.id == x for n in ast.walk(v)):
+                return node
+            g = v.generators[0]
+            init = ast.Assign(targets=[ast.Name(x, ast.Store())], value=ast.List(elts=[], ctx=ast.Load()), lineno=node.lineno)
+            app = ast.Expr(ast.Call(func=ast.Attribute(ast.Name(x, ast.Load()), "append", ast.Load()), args=[v.elt], keywords=[]))
+            loop = ast.For(target=g.target, iter=g.iter, body=[app], orelse=[], lineno=node.lineno)
+            return [init, loop]
+        return node
+
+
+class FStrings(ast.NodeTransformer):
+    """"text" + name  /  "text" + name + "text" in raise statements -> f-strings"""
+    def visit_Raise(self, node):
+        if node.exc is not None and isinstance(node.exc, ast.Call) and len(node.exc.args) == 1:
+            parts = []
+
+            def flat(e):
+                if isinstance(e, ast.BinOp) and isinstance(e.op, ast.Add):
+                    return flat(e.left) and flat(e.right)
+                if isinstance(e, ast.Constant) and isinstance(e.value, str):
+                    parts.append(e)
+                    return True
+                if isinstance(e, (ast.Name, ast.Attribute)):
+                    parts.append(ast.FormattedValue(value=e, conversion=-1, format_spec=None))
+                    return True
+                return False
+            a = node.exc.args[0]
+            if isinstance(a, ast.BinOp) and flat(a) and any(isinstance(x, ast.FormattedValue) for x in parts):
+                node.exc.args[0] = ast.JoinedStr(values=parts)
+        return node
+
+
 AST_VARIANTS = [
     ("N01-rename-locals", "consistent renaming of the local variables of every function (anchor locals sL/sR/sM/cmax kept)", lambda: RenameLocals(keep=ANCHOR_LOCALS), "all"),
     ("N02-commute", "operands of + and * exchanged in every numeric expression", Commute, "all"),
@@ -152,6 +330,15 @@ AST_VARIANTS = [
     ("N05-abs-forms", "np.abs <-> abs", AbsForms, "all"),
     ("N06-split-chains", "chained assignments a = b = e split into two statements", SplitChains, "all"),
     ("N07-negate-where", "np.where(c, X, Y) rewritten with the negated comparison and exchanged branches", NegateWhere, "all"),
+    ("N70-annotations", "type annotations on parameters / returns and one annotated local assignment per function", Annotate, "all"),
+    ("N71-asserts", "an assert on the first parameter at the start of every function", Asserts, "all"),
+    ("N72-logging", "a module logger and a debug call at the start of every function", Logging, "all"),
+    ("N73-errstate", "method bodies wrapped in `with np.errstate(invalid='warn'):`", ErrState, "all"),
+    ("N74-try-reraise", "function bodies wrapped in try / except Exception: raise", TryReraise, "all"),
+    ("N75-reorder-methods", "methods of every class in reverse source order", SortMethods, "all"),
+    ("N77-numpy-forms", "np.sqrt(x) -> x**0.5, x**2 -> np.square(x), np.abs -> np.absolute", NumpyForms, "all"),
+    ("N78-comp-to-loop", "list comprehensions assigned to a name rewritten as explicit append loops", CompToLoop, "all"),
+    ("N79-fstrings", "string concatenations in raise statements rewritten as f-strings", FStrings, "all"),
     ("N08-rename-anchor-locals", "as N01 but the anchor locals sL/sR/sM/cmax are renamed too (checks that need them may answer 'cannot decide', never an alarm)", lambda: RenameLocals(), "noalarm"),
 ]
 
